@@ -742,8 +742,64 @@ def run_algebra(ctx):
     ctx.floor(rule, 20)
 
 
+def run_values(ctx):
+    """the IdpfValue implementations shipped with the crate are the group the formulas assume"""
+    rule = "R-C06.V"
+    prog = ctx.prog
+    PV = "vdaf::poplar1::Poplar1IdpfValue"
+    # blanket impl for field elements
+    for f in prog.find(name="conditional_select", trait="IdpfValue"):
+        rds = [rd for rd in ctx.guards(f).retdefs if rd.expr is not None]
+        good = len(rds) == 1 and Call("conditional_select", Local(1), Local(2), Local(3))(rds[0].expr) and "ConditionallySelectable" in fmt(rds[0].expr)
+        req(ctx, rule, "%s:%s" % (rule, f.id), good, "IdpfValue::conditional_select(a, b, c) forwards (a, b, c) in order",
+            "IdpfValue::conditional_select does not forward (a, b, choice) in that order: %s" % [fmt(r.expr)[:120] for r in rds], loc=f.loc)
+    for f in prog.find(name="zero", trait="IdpfValue"):
+        rds = [rd for rd in ctx.guards(f).retdefs if rd.expr is not None]
+        e = rds[0].expr if len(rds) == 1 else ("unk",)
+        good = Call("zero")(e) or (Agg("Poplar1IdpfValue")(e) and all(Call("zero")(x) for x in walk(e[2][0]) if isinstance(x, tuple) and x[0] == "call")
+                                   and Mentions(Call("zero"))(e))
+        req(ctx, rule, "%s:%s" % (rule, f.id), good, "IdpfValue::zero is the additive identity", "IdpfValue::zero is not built from F::zero(): %s" % fmt(e)[:120], loc=f.loc)
+    for f in prog.find(name="generate", trait="IdpfValue"):
+        g = ctx.guards(f)
+        draws = calls_named(ctx, f, "generate_random", "generate")
+        good = bool(draws) and all(Local(1)(c[2][0]) for bi, c in draws) and \
+            not [t.callee.name for bi, t in f.body.calls() if t.callee.name in ("fill_bytes", "next_u32", "next_u64", "random")]
+        n = 2 if "Poplar1IdpfValue" in f.id else 1
+        good = good and len(draws) == n and all(f.body.dominates(draws[i][0], draws[i + 1][0]) for i in range(len(draws) - 1))
+        req(ctx, rule, "%s:%s" % (rule, f.id), good, "generate draws %d field element(s) in order from the given stream" % n,
+            "IdpfValue::generate does not draw exactly %d element(s) from the given stream" % n, loc=f.loc)
+    # element-wise group operations of Poplar1IdpfValue
+    comp = lambda p, i: Index(Field(p, "0"), Lit(i))
+    for nm, tr, op in (("add", "Add", "Add"), ("sub", "Sub", "Sub")):
+        try:
+            f = ctx.fn(rule, name=nm, trait=tr, self_adt=PV)
+            rds = [rd for rd in ctx.guards(f).retdefs if rd.expr is not None]
+            good = len(rds) == 1 and Agg("Poplar1IdpfValue", Agg("array", Bin(op, comp(Local(1), 0), comp(Local(2), 0)), Bin(op, comp(Local(1), 1), comp(Local(2), 1))))(rds[0].expr)
+            req(ctx, rule, "%s:%s" % (rule, f.id), good, "%s is element-wise, self %s rhs" % (nm, op), "Poplar1IdpfValue::%s is not element-wise self %s rhs: %s" % (nm, op, [fmt(r.expr)[:120] for r in rds]), loc=f.loc)
+        except Skip:
+            pass
+    try:
+        f = ctx.fn(rule, name="add_assign", trait="AddAssign", self_adt=PV)
+        cs = [c for bi, c in calls_named(ctx, f, "add_assign")]
+        good = len(cs) == 2 and all(comp(Local(1), i)(cs[i][2][0]) and comp(Local(2), i)(cs[i][2][1]) for i in (0, 1))
+        req(ctx, rule, "%s:%s" % (rule, f.id), good, "add_assign is element-wise", "Poplar1IdpfValue::add_assign is not element-wise", loc=f.loc)
+        f = ctx.fn(rule, name="conditional_select", trait="ConditionallySelectable", self_adt=PV)
+        rds = [rd for rd in ctx.guards(f).retdefs if rd.expr is not None]
+        sel = lambda i: Call("conditional_select", comp(Local(1), i), comp(Local(2), i), Local(3))
+        good = len(rds) == 1 and Agg("Poplar1IdpfValue", Agg("array", sel(0), sel(1)))(rds[0].expr)
+        req(ctx, rule, "%s:%s" % (rule, f.id), good, "conditional_select is element-wise select(a[i], b[i], choice)", "Poplar1IdpfValue::conditional_select is not element-wise (a, b, choice)", loc=f.loc)
+        f = ctx.fn(rule, name="conditional_negate", trait="ConditionallyNegatable", self_adt=PV)
+        cs = [c for bi, c in calls_named(ctx, f, "conditional_negate")]
+        good = len(cs) == 2 and all(comp(Local(1), i)(cs[i][2][0]) and Local(2)(cs[i][2][1]) for i in (0, 1))
+        req(ctx, rule, "%s:%s" % (rule, f.id), good, "conditional_negate negates both components under the same choice", "Poplar1IdpfValue::conditional_negate does not negate both components", loc=f.loc)
+    except Skip:
+        pass
+    ctx.floor(rule, 11)
+
+
 def run(ctx):
     run_keys(ctx)
+    run_values(ctx)
     run_caches(ctx)
     run_levels(ctx)
     run_fresh(ctx)
